@@ -54,8 +54,47 @@ BASES = {
 }
 
 
+def check_adapters_columnwise(ctx):
+    """per-column scorer outputs permute with the columns: the cost-based adapters combine the
+    (k,p) outputs of their cost elementwise and never pick a column by position"""
+    rule = "C12.a COLUMNWISE-ADAPTER"
+    from .c06 import _adapter
+
+    for modattr, width, param in ((("skchange.change_scores", "ChangeScore"), 3, "none"), (("skchange.anomaly_scores", "Saving"), 2, "fixed"), (("skchange.anomaly_scores", "LocalAnomalyScore"), 4, "none")):
+
+        def go(modattr=modattr, width=width, param=param):
+            cls, ex, paths, st = _adapter(ctx, modattr, width, param)
+            bad = {}
+            n = 0
+            for p in paths:
+                for e in p.events[st.get("n_fit", 0):]:
+                    for key in ("value", "result"):
+                        v = e.data.get(key)
+                        if not (isinstance(v, Num) and v.nf is not None):
+                            continue
+                        for a in atoms_of(v.nf).values():
+                            if a.kind == "app" and a.args[0] == "idx" and isinstance(a.args[1], NF):
+                                inner = single_atom(a.args[1])
+                                if inner is not None and inner.kind == "app" and inner.args[0] == "eval":
+                                    n += 1
+                                    parts = a.args[2]
+                                    if len(parts) >= 2 and parts[1] != "full":
+                                        bad.setdefault(e.loc(), (e, a))
+                            if a.kind == "app" and a.args[0] in ("col", "colslice") and isinstance(a.args[1], NF):
+                                inner = single_atom(a.args[1])
+                                if inner is not None and inner.kind == "app" and inner.args[0] == "eval":
+                                    bad.setdefault(e.loc(), (e, a))
+            for l, (e, a) in bad.items():
+                ctx.violation(rule, f"{modattr[1]}|column-pick", l, "a column of the cost's per-column output is selected by position: per-column scores no longer permute with the data columns", found=repr(a)[:200], expected="whole rows of the (k,p) cost output")
+            if not bad:
+                ctx.holds(rule, modattr[1], cls.module.relpath, "the adapter combines whole rows of its cost's per-column output (no column picked by position)")
+
+        ctx.guard(rule, modattr[1], go)
+
+
 def check(ctx):
     check_agg(ctx)
+    check_adapters_columnwise(ctx)
     ctx.guard("C12.b NF-INVARIANCE", "costs", lambda: check_invariance(ctx))
     ctx.guard("C12.c NF-REVERSAL", "scores", lambda: check_reversal(ctx))
     ctx.expect_min("C12.a SYMMETRIC-AGG", sum(1 for o in ctx.obs if o.rule == "C12.a SYMMETRIC-AGG" and o.status == "HOLDS"), 5)
